@@ -77,3 +77,6 @@ def run(repo, res, tier):
     # values forwarded to another function land in the parameter that bears their name (no TypeError from swapped hooks)
     from .. import hookrules as _hkao
     _hkao.rule_arg_order(repo, res)
+    # a pattern a dialect switches off (None) is tested before it is used: no AttributeError from the decoders
+    from .. import tablerules as _tb6
+    _tb6.rule_none_guard(repo, res)
